@@ -100,12 +100,14 @@ EpochDropAlways == /\ boot # << >> /\ epoch < MaxEpochs
                         /\ batches' = [k \in 1..(kept \div B) |-> [e \in Members |-> [b \in 1..B |-> boot[e][used'[e][(k - 1) * B + b]]]]]
                    /\ epoch' = epoch + 1 /\ UNCHANGED boot
 
+EpochNone == Dev = "none" /\ Epoch
+PerturbAny == EMIT /\ \E D \in SUBSET (0..(N - 1)) : Perturb(D)
 Next == \/ Bootstrap
-        \/ (EMIT /\ \E D \in SUBSET (0..(N - 1)) : Perturb(D))
-        \/ IF Dev = "none" THEN Epoch
-           ELSE IF Dev = "shared_row" THEN EpochSharedRow
-           ELSE IF Dev = "with_replacement" THEN EpochWithReplacement
-           ELSE EpochDropAlways
+        \/ EpochNone
+        \/ PerturbAny
+        \/ (Dev = "shared_row" /\ EpochSharedRow)
+        \/ (Dev = "with_replacement" /\ EpochWithReplacement)
+        \/ (Dev = "drop_always" /\ EpochDropAlways)
 Spec == Init /\ [][Next]_vars
 
 ----------------------------------------------------------------------------
@@ -138,7 +140,8 @@ MemberIsolation ==
     \A D \in SUBSET (0..(N - 1)) : \A e \in Members :
       (D \cap RowsOf(batches, 1, e) = {}) <=>
         TrainTo(V0, batches, Clean, 1).m[e] = TrainTo(V0, batches, Touched(D), 1).m[e]
-(* ... while over a whole epoch of >= 2 steps it may: the bounds couple the members *)
+(* the shared bounds depend on every row handed to any member: this is what couples the     *)
+(* members from the second step on                                                          *)
 BoundsCouple ==
   epoch > 0 /\ Len(batches) > 0 =>
     \A D \in SUBSET (0..(N - 1)) :
